@@ -201,7 +201,7 @@ func runOne(bin string, in simInput, timeout time.Duration) *outcome {
 	return o
 }
 
-// capBuffer keeps the first 256 KB and the last 1 MB of what a run process prints (a process
+// capBuffer keeps the first 256 KB and the last 6 MB of what a run process prints (a process
 // caught in a loop that logs can print gigabytes; panics and race reports are at the end, the
 // first report is at the beginning).
 type capBuffer struct {
@@ -210,7 +210,7 @@ type capBuffer struct {
 	dropped int64
 }
 
-const capHead, capTail = 256 << 10, 1 << 20
+const capHead, capTail = 256 << 10, 6 << 20
 
 func (b *capBuffer) Write(p []byte) (int, error) {
 	n := len(p)
